@@ -585,7 +585,7 @@ func (c *c15Case) genStmt(name string, ctx c15StmtCtx) *api.Statement {
 
 func (c *c15Case) genPolicy(name string, ctx c15StmtCtx) *api.Policy {
 	p := &api.Policy{Name: name}
-	for j, n := 0, 1+c.r.IntN(3); j < n; j++ {
+	for j, n := 0, []int{1, 2, 2, 3}[c.r.IntN(4)]; j < n; j++ {
 		p.Statements = append(p.Statements, c.genStmt(fmt.Sprintf("%s_s%d", name, j), ctx))
 	}
 	return p
@@ -883,7 +883,7 @@ func (c *c15Case) genChange(p *c15Prog, dir api.PolicyDirection) *c15Change {
 			req := &api.SetPolicyAssignmentRequest{Assignment: &api.PolicyAssignment{Name: target, Direction: dir, Policies: c15PolRefs(cur), DefaultAction: def}}
 			ch.Calls = []c15Call{{Desc: "SetPolicyAssignment " + c15Text(req), Do: func(s *BgpServer) error { return s.SetPolicyAssignment(c15Ctx, req) }}}
 			a.DefaultAction = def
-		case k < 82: // ---- edit a defined set that is in use
+		case k < 78: // ---- edit a defined set that is in use
 			use := c.setsInUse(p, dir)
 			if len(use) == 0 {
 				continue
@@ -964,7 +964,7 @@ func (c *c15Case) genChange(p *c15Prog, dir api.PolicyDirection) *c15Change {
 				ch.Calls = []c15Call{{Desc: "AddDefinedSet " + c15Text(req), Do: func(s *BgpServer) error { return s.AddDefinedSet(c15Ctx, req) }}}
 				set.List, set.Prefixes = nw.List, nw.Prefixes
 			}
-		case k < 92: // ---- append a statement to a policy that is assigned
+		case k < 87: // ---- append a statement to a policy that is assigned
 			ch.Kind = "policy-add-stmt"
 			if len(cur) == 0 {
 				continue
